@@ -194,6 +194,28 @@ func (o *Obligation) relevantHyps() []*Term {
 	return keep
 }
 
+var skCounter int
+
+func introGoal(g *Term) (*Term, []*Term) {
+	var hyps []*Term
+	for {
+		switch {
+		case g.K == TQuant && g.Op == "forall":
+			m := map[string]*Term{}
+			for _, v := range g.Vars {
+				skCounter++
+				m[v.Op] = Const(fmt.Sprintf("sk:%s:%d", v.Op, skCounter), v.Sort)
+			}
+			g = subst(g.Args[0], m)
+		case g.K == TApp && g.Op == "=>" && len(g.Args) == 2:
+			hyps = append(hyps, g.Args[0])
+			g = g.Args[1]
+		default:
+			return g, hyps
+		}
+	}
+}
+
 func (o *Obligation) SMT(withModel bool, forCVC5 bool) string {
 	var sb strings.Builder
 	hyps := o.relevantHyps()
@@ -202,8 +224,16 @@ func (o *Obligation) SMT(withModel bool, forCVC5 bool) string {
 	}
 	sb.WriteString("(set-logic ALL)\n")
 	d := NewDecls()
+	goal := o.Goal
+	if o.Expect != "sat" {
+		// goal introduction: (A ==> forall x. B) becomes hypothesis A, goal B[x := fresh constant], so that spec-function
+		// applications in the goal are ground and get unfolded
+		var extra []*Term
+		goal, extra = introGoal(goal)
+		hyps = append(hyps, extra...)
+	}
 	all := append(append([]*Term{}, o.Axioms...), hyps...)
-	all = append(all, o.Goal)
+	all = append(all, goal)
 	for _, w := range o.Watch {
 		all = append(all, w.T)
 	}
@@ -427,9 +457,9 @@ func (o *Obligation) SMT(withModel bool, forCVC5 bool) string {
 		fmt.Fprintf(&sb, "(assert %s)\n", h)
 	}
 	if o.Expect == "sat" {
-		fmt.Fprintf(&sb, "(assert %s)\n", o.Goal)
+		fmt.Fprintf(&sb, "(assert %s)\n", goal)
 	} else {
-		fmt.Fprintf(&sb, "(assert (not %s))\n", o.Goal)
+		fmt.Fprintf(&sb, "(assert (not %s))\n", goal)
 	}
 	sb.WriteString("(check-sat)\n")
 	if withModel && len(o.Watch) > 0 {
